@@ -1,3 +1,4 @@
+//go:build verif
 // +build verif
 
 package raft
@@ -20,14 +21,14 @@ import (
 // simEvent is one transition.  It is JSON-serialisable: a history is a list of
 // events and is replayed on a fresh world.
 type simEvent struct {
-	K   string `json:"k"`             // kind
-	N   int    `json:"n,omitempty"`   // node index
-	C   string `json:"c,omitempty"`   // connection key
-	F   uint64 `json:"f,omitempty"`   // follower id (driver events) / target id
-	A   int    `json:"a,omitempty"`   // small integer argument
-	S   string `json:"s,omitempty"`   // string argument (operation name)
-	Dev int    `json:"dev,omitempty"` // deviation cost of this event
-	In  *simEvent `json:"in,omitempty"` // KA: the event during which node N dies at its A-th storage point
+	K   string    `json:"k"`             // kind
+	N   int       `json:"n,omitempty"`   // node index
+	C   string    `json:"c,omitempty"`   // connection key
+	F   uint64    `json:"f,omitempty"`   // follower id (driver events) / target id
+	A   int       `json:"a,omitempty"`   // small integer argument
+	S   string    `json:"s,omitempty"`   // string argument (operation name)
+	Dev int       `json:"dev,omitempty"` // deviation cost of this event
+	In  *simEvent `json:"in,omitempty"`  // KA: the event during which node N dies at its A-th storage point
 }
 
 func (e simEvent) String() string {
@@ -775,8 +776,8 @@ type simNopRWC struct {
 
 func (s *simNopRWC) Write(p []byte) (int, error)        { return len(p), nil }
 func (s *simNopRWC) Close() error                       { return nil }
-func (s *simNopRWC) LocalAddr() net.Addr                 { return simAddr("dup") }
-func (s *simNopRWC) RemoteAddr() net.Addr                { return simAddr("dup") }
+func (s *simNopRWC) LocalAddr() net.Addr                { return simAddr("dup") }
+func (s *simNopRWC) RemoteAddr() net.Addr               { return simAddr("dup") }
 func (s *simNopRWC) SetDeadline(t time.Time) error      { return nil }
 func (s *simNopRWC) SetReadDeadline(t time.Time) error  { return nil }
 func (s *simNopRWC) SetWriteDeadline(t time.Time) error { return nil }
